@@ -358,6 +358,7 @@ fn histories(seed: u64, shard: u64, n: u64) -> Tally {
         let mut prov = Prov::new(Script::derive("unused"));
         let mut total_calls = 0usize;
         let mut expected_calls = 0usize;
+        let mut silent_step = false;
         let mut outcomes = std::collections::BTreeSet::new();
         let mut ok = true;
         for step in 0..len {
@@ -395,7 +396,11 @@ fn histories(seed: u64, shard: u64, n: u64) -> Tally {
             t.eval();
             total_calls += rec.calls();
             if let Some(j) = judge(&case, &fresh) {
-                if j.analysis.stage() >= Stage::Provider && case.script.ready_err.is_none() {
+                if matches!(j.analysis.verdict, Verdict::DontCare { .. }) {
+                    // the reference model does not say how far this request travels: the call total of this history is
+                    // not judged (every step is still compared with a fresh provider and checked for discipline)
+                    silent_step = true;
+                } else if j.analysis.stage() >= Stage::Provider && case.script.ready_err.is_none() {
                     expected_calls += 1;
                 }
             }
@@ -417,7 +422,9 @@ fn histories(seed: u64, shard: u64, n: u64) -> Tally {
             }
             outcomes.insert(rec.outcome.brief().chars().take(30).collect::<String>());
         }
-        if ok && total_calls != expected_calls {
+        if ok && silent_step {
+            t.count("histories_with_a_step_the_reference_model_is_silent_on");
+        } else if ok && total_calls != expected_calls {
             t.violate(crate::run::Violation {
                 monitor: "provider-history".into(),
                 signature: "provider-history|call-total".into(),
